@@ -21,6 +21,13 @@ CLAIMED = {
             'enumerated tree, clauses C16.node, C16.blocks, C16.tree of Nav.tla evaluated by TLC on the recorded answers.',
             'TLC/SANY/CommunityModules; harness graph dump; small-scope hypothesis beyond the bounds',
             'TLA+ spec (Nav.tla) + TLC model checking + TLC trace validation of recorded API answers'),
+    'C20': ('6/C20', "TLC builds every string up to length 4 (quick) / 6 (thorough) over {A b 1 2 - = # ' *} (and the literal EMPTY plus extensions) and runs the stripping machine of Labels.tla one step per action, checking every C20 clause on the reference; every string is then parsed/formatted by the real code (all option combinations, every component emptied, non-default separator) and every node-attribute x output-option combination is decorated by get_label; TLC validates each recorded result against the same clauses.", 'TLC/SANY/CommunityModules; labels are handed to TLC as character sequences; random longer labels sampled', 'TLA+ spec (Labels.tla) + TLC model checking + TLC trace validation'),
+    'C12': ('6/C12', 'root_attach is specified as a fold over the root children on the set-based tree (Transform.RootAttach). TLC enumerates every tree within the bounds, checks clauses on the reference, and every tree is replayed on the real function; TLC decides C12.exact (equality with the reference), only_root_children_move, attrs_unchanged, edges_stay on the recorded pointer graphs.', 'TLC/SANY/CommunityModules; the mechanical graph dump of harness/treeio.py; PUNCT/PAIRPUNCT and head-rule tables are read from the working tree; small-scope hypothesis beyond the bounds', 'TLA+ spec (Transform.tla/TransformProps.tla) + TLC model checking of reference operators + TLC trace validation of every recorded call'),
+    'C05': ('6/C05', 'Declarative CrossFree (every constituent keeps its head run) and the operational BoydSplit/Raising are both in Transform.tla; TLC checks them against each other on all trees x head assignments within the bounds, and validates the recorded graphs after negra_mark_heads, boyd_split and raising (with and without root_attach) against C05.split.*, continuous, tokens, labels, identity_on_continuous, exact.', 'TLC/SANY/CommunityModules; the mechanical graph dump of harness/treeio.py; PUNCT/PAIRPUNCT and head-rule tables are read from the working tree; small-scope hypothesis beyond the bounds', 'TLA+ spec (Transform.tla/TransformProps.tla) + TLC model checking of reference operators + TLC trace validation of every recorded call'),
+    'C13': ('6/C13', 'Reference folds for the three punctuation re-attachments (targets evaluated on the current tree) and the clauses verylow.sister, root.at_root, sym.only_paired_move, sym.joins_pair, nothing_else_moves (on stable node identities) checked by TLC on all trees with plain/punctuation/paired-punctuation/relative-pronoun tokens within the bounds, then on recorded runs of the real functions.', 'TLC/SANY/CommunityModules; the mechanical graph dump of harness/treeio.py; PUNCT/PAIRPUNCT and head-rule tables are read from the working tree; small-scope hypothesis beyond the bounds', 'TLA+ spec (Transform.tla/TransformProps.tla) + TLC model checking of reference operators + TLC trace validation of every recorded call'),
+    'C14': ('6/C14', 'Head-outward binarization, collapsing and uncollapsing as set-level operators on character-sequence labels; clauses bin.arity, bin.only_at_nodes, bin.contract, bin.rejects_headless, col.no_unary, col.labels_joined, uncol.roundtrip, uncol.ret_is_root checked by TLC on the model (arity up to 5/6, chains up to 4) and on recorded runs.', 'TLC/SANY/CommunityModules; the mechanical graph dump of harness/treeio.py; PUNCT/PAIRPUNCT and head-rule tables are read from the working tree; small-scope hypothesis beyond the bounds', 'TLA+ spec (Transform.tla/TransformProps.tla) + TLC model checking of reference operators + TLC trace validation of every recorded call'),
+    'C15': ('6/C15', 'NeGra heuristic and the Collins-style rule interpreter in Transform.tla; clauses one_head, negra.exact, rules.unique_listed, structure_unchanged checked by TLC on all edge assignments within the bounds and on recorded runs of the real head markers (rule tables exported from the working tree).', 'TLC/SANY/CommunityModules; the mechanical graph dump of harness/treeio.py; PUNCT/PAIRPUNCT and head-rule tables are read from the working tree; small-scope hypothesis beyond the bounds', 'TLA+ spec (Transform.tla/TransformProps.tla) + TLC model checking of reference operators + TLC trace validation of every recorded call'),
+    'C04': ('6/C04', 'TLC explores every prerequisite-respecting sequence of up to 2 (quick) / 3 (thorough) transformations from every tree within the bounds with the reference operators, checking TreeOK, token preservation and the per-operation label bookkeeping; every (tree, sequence) is replayed on the real functions, the raw pointer graph is dumped after every call and TLC evaluates wf.root/links/nodup/nochildless/tokens, ret_is_root, tokens and labels.<op> on every recorded step.', 'TLC/SANY/CommunityModules; the mechanical graph dump of harness/treeio.py; PUNCT/PAIRPUNCT and head-rule tables are read from the working tree; small-scope hypothesis beyond the bounds', 'TLA+ spec (Transform.tla/TransformProps.tla) + TLC model checking of reference operators + TLC trace validation of every recorded call'),
 }
 
 NOT_YET = 'check not built yet (work in progress, see DESIGN.md section 12)'
